@@ -2,7 +2,7 @@ SPEC = dict(
     id="C43",
     bin="c43",
     crate="/verif/harness-sdk",
-    cases_quick=3600,
+    cases_quick=2700,
     cases_thorough=120000,
     level="proof",
     technique="Coq theorems over a Gallina model of crates/sdk/src/utils/fixed.rs and of the rust_decimal 1.37.2 operations it calls (try_from_i128_with_scale, from_i128_with_scale, rescale loops, mantissa, scale, Neg) + differential correspondence with the real SDK functions evaluated inside Coq (vm_compute) + exactness/round-trip oracle on the Rust outputs",
